@@ -47,8 +47,8 @@ func (s *labStable) GetStableAccountDB(types.Address) db.DB { return s.mgr.Front
 
 // how tags win: by plasma ratio, by hash at equal ratio, by hash at equal ratio with different base plasma
 type poolConc struct {
-	name  string
-	plasma func(tag string) (base, total uint64)
+	name     string
+	plasma   func(tag string) (base, total uint64)
 	hashRank func(tag string) byte
 }
 
